@@ -399,6 +399,58 @@ func (s *c10State) actAdvanceMonth(rt *rapid.T) {
 	}
 }
 
+func (s *c10State) iprpcPreamble(rt *rapid.T, wrap func(func(*rapid.T)) func(*rapid.T)) {
+	w := s.w
+	ts := w.C.TS
+	s.c.Class("iprpc-preamble")
+	eligible := w.Consumers[0]
+	funder := w.Consumers[len(w.Consumers)-1]
+	cost := int64(rapid.SampledFrom([]int{0, 100}).Draw(rt, "preMinCost"))
+	authority := authtypes.NewModuleAddress(govtypes.ModuleName).String()
+	sd := &rewardstypes.MsgSetIprpcData{Authority: authority, MinIprpcCost: sdk.NewCoin(w.C.Denom(), sdk.NewInt(cost)), IprpcSubscriptions: []string{eligible.Addr()}}
+	wrap(func(*rapid.T) {
+		_ = w.C.Tx(fmt.Sprintf("iprpcSetData*(cost=%d,subs=[%s])", cost, eligible.Name), sd.ValidateBasic, func() error {
+			_, err := ts.Servers.RewardsServer.SetIprpcData(ts.GoCtx, sd)
+			return err
+		})
+	})(rt)
+	for _, spec := range w.Specs {
+		duration := uint64(rapid.IntRange(3, 5).Draw(rt, "preDuration"))
+		amount := int64(rapid.SampledFrom([]int{5000, 99_999, 1_000_000}).Draw(rt, "preFund"))
+		coins := sdk.NewCoins(sdk.NewCoin(w.C.Denom(), sdk.NewInt(amount)))
+		msg := &rewardstypes.MsgFundIprpc{Creator: funder.Addr(), Spec: spec.Index, Duration: duration, Amounts: coins}
+		spec := spec
+		wrap(func(*rapid.T) {
+			if err := w.C.Tx(fmt.Sprintf("iprpcFund*(%s,%s,%dm,%s)", funder.Name, spec.Index, duration, coins), msg.ValidateBasic, func() error {
+				_, err := ts.Servers.RewardsServer.FundIprpc(ts.GoCtx, msg)
+				return err
+			}); err == nil {
+				s.fundLong++
+			}
+		})(rt)
+	}
+	s.check(rt, "after the IPRPC preamble funds")
+	served := w.Specs[rapid.IntRange(0, len(w.Specs)-1).Draw(rt, "preServedSpec")].Index
+	for m := 0; m < 2 && w.C.Halt == ""; m++ {
+		n := rapid.IntRange(1, 3).Draw(rt, "preRelays")
+		for i := 0; i < n; i++ {
+			dev := eligible.Devs[0]
+			paired := w.PairedProviders(served, dev.Addr.String())
+			if len(paired) == 0 {
+				break
+			}
+			prov := paired[rapid.IntRange(0, len(paired)-1).Draw(rt, "preProvider")]
+			r := chain.RelaySpec{Cons: eligible, Signer: dev, Prov: prov, Chain: served, Epoch: int64(w.C.EpochStart()), Session: w.NextSess,
+				CuSum: uint64(rapid.SampledFrom([]int{10, 100, 1000}).Draw(rt, "preCu"))}
+			w.NextSess++
+			wrap(func(*rapid.T) { _, _ = w.SendRelays(prov, []chain.RelaySpec{r}) })(rt)
+			s.check(rt, "after a preamble relay payment")
+		}
+		wrap(s.actAdvanceMonth)(rt)
+		w.C.AdvanceEpochs(int(ts.EpochsToSave()) + 2)
+	}
+}
+
 func TestC10(t *testing.T) {
 	c := ev.For("C10")
 	c.SetRule("rapid state machine on a generated world (2-3 plans of different price, 2-3 consumers, contributors, delegators): full transaction alphabet plus emphasised subscription upgrades, advance purchases (replaced while pending), auto-renewal, IPRPC data/funds of 1-12 months in one or two denoms, relay payments, reward claims of recorded rewards, month jumps and advances to the block of the next monthly payout; oracle after every transaction and block: each escrow account covers its recorded obligations, claims succeed and pay the recorded amount, no transfer refused for lack of funds in the error log; non-trivial = an advance purchase was pending, or >=2 IPRPC months were stored, when a month boundary was crossed; distinct = distinct histories")
@@ -511,6 +563,13 @@ func TestC10(t *testing.T) {
 			checkLogs("during the last action")
 		}
 		s.check(rt, "after world setup")
+		// Directed preamble (1 case in 3, drawn parameters): IPRPC funds on every spec for several
+		// months, an eligible subscription that is served on ONE spec only, then two month boundaries
+		// with the payout window in between - the state in which one funded spec was served and
+		// another was not when the IPRPC month is distributed. The random history continues from there.
+		if len(w.Specs) >= 2 && rapid.IntRange(0, 2).Draw(rt, "iprpcPreamble") == 0 {
+			s.iprpcPreamble(rt, wrap)
+		}
 		rt.Repeat(acts)
 
 		s.relaysOK = countHistOK(w, "tx relayPayment(")
